@@ -289,6 +289,18 @@ where
                 chip.assert_non_zero(l, &p)
             }
         }
+        // private helpers reached through hook H11 (forwarding wrappers, feature verif-hooks)
+        "incomplete_add" => {
+            let p = in_point(ctx, chip, ng, l)?;
+            let q = in_point(ctx, chip, ng, l)?;
+            let r = chip.verif_incomplete_add(l, &p, &q)?;
+            expose_point(ctx, chip, ng, l, &r, false)
+        }
+        "assert_different_x" => {
+            let p = in_point(ctx, chip, ng, l)?;
+            let q = in_point(ctx, chip, ng, l)?;
+            chip.verif_incomplete_assert_different_x(l, &p, &q)
+        }
         // x / y as plain emulated elements -> a point (on-curve gate with a FIXED condition bit)
         "point_from_coordinates" => {
             // input: a scalar k; the coordinates of k*G come in as two plain emulated elements
@@ -341,5 +353,6 @@ where
         "curve_a": format!("0x{:x}", big_of(&<C as WeierstrassCurve>::A)),
         "curve_b": format!("0x{:x}", big_of(&<C as WeierstrassCurve>::B)),
         "offcircuit_pi": offpi,
+        "ins": spec.ins.iter().map(|k| format!("0x{:x}", k)).collect::<Vec<_>>(),
         "coords": coords})
 }
